@@ -1,5 +1,5 @@
 """Engine M driver: dump MIR of /repo's working tree, build the event automata, discharge them."""
-import fcntl, hashlib, os, re, subprocess, sys, time
+import fcntl, hashlib, json, os, re, subprocess, sys, time
 
 HERE = os.path.dirname(os.path.abspath(__file__))
 VERIF = os.path.dirname(HERE)
@@ -59,7 +59,79 @@ def mir_dump(log):
         fcntl.flock(lock, fcntl.LOCK_UN)
 
 
+def native_validation(prop, tier, refuted, log):
+    """Native replay / translator validation with the real build (no models): strace-driven crash images
+    (C04 / C05 / C16 / C20) and single-bit corruption of every persisted file (C10). Runs in the thorough
+    tier, and in any tier when an engine-M obligation of that property was refuted (= replay). It can only
+    add a violation that was *observed* on the real code; it never turns a refutation into a pass."""
+    out = []
+    if not (tier == "thorough" or refuted):
+        return out
+    sys.path.insert(0, os.path.join(VERIF, "lib"))
+    try:
+        import crashsim, corruptsim
+    except Exception as e:  # pragma: no cover
+        return [{"ob": "native", "engine": "native replay", "query": "import", "verdict": "inconclusive", "reason": str(e)}]
+    t0 = time.time()
+    try:
+        if prop in ("C04", "C05", "C16", "C20"):
+            n, probs = crashsim.validate_order()
+            res = {"ob": "V.order", "obligation": "V.order", "engine": "native (strace of the real build)", "query": "syscall order of persist_version / rewrite_atomic / table writer on the fault-free path equals the order the MIR automata assume",
+                   "verdict": "proved" if not probs else "refuted", "reason": "; ".join(probs)[:300], "validated": n, "wall_s": round(time.time() - t0, 1)}
+            if probs:
+                rdir = os.path.join(VERIF, "replays", prop)
+                os.makedirs(rdir, exist_ok=True)
+                res["replay"] = os.path.join(rdir, "syscall-order.json")
+                json.dump(probs, open(res["replay"], "w"), indent=1)
+            out.append(res)
+            log("[V.order] %-10s %d syscall-order checks against the real build %s" % (res["verdict"], n, res["reason"][:100]))
+            for wl, blob in (("std", False), ("blob", True)):
+                t1 = time.time()
+                rep = crashsim.explore(wl, blob, max_images=2000)
+                bad = rep["unopenable"] + rep["mixed"]
+                res = {"ob": "V.crash", "obligation": "V.crash", "engine": "native (crash images rebuilt from strace, reopened with the real Config::open)",
+                       "query": "workload %s: every POSIX-permitted crash image opens and equals the state at an adjacent operation boundary" % wl,
+                       "verdict": "proved" if not bad else "refuted", "reason": ("%d unopenable / %d mixed images, e.g. %s" % (len(rep["unopenable"]), len(rep["mixed"]), json.dumps(bad[0], default=str)[:300])) if bad else "",
+                       "validated": rep["images"], "wall_s": round(time.time() - t1, 1), "bound": "%d syscall events, %d images (every event prefix x {all / none / each single unsynced directory op lost})" % (rep["events"], rep["images"])}
+                if bad:
+                    rdir = os.path.join(VERIF, "replays", prop)
+                    os.makedirs(rdir, exist_ok=True)
+                    rp = os.path.join(rdir, "crashsim.%s.json" % wl)
+                    json.dump(bad[:10], open(rp, "w"), indent=1, default=str)
+                    res["replay"] = rp
+                out.append(res)
+                log("[V.crash] %-10s workload %-5s %d crash images %s" % (res["verdict"], wl, rep["images"], res["reason"][:120]))
+        if prop == "C10":
+            for wl in ("std2", "blob2"):
+                t1 = time.time()
+                rep = corruptsim.run(wl, wl.startswith("blob"), stride=1 if tier == "thorough" else 7)
+                bad = rep["different"]
+                res = {"ob": "V.corrupt", "obligation": "V.corrupt", "engine": "native (bit flips / truncations of every persisted file, reopened with the real code)",
+                       "query": "workload %s: every single-bit flip / truncation is reported or harmless" % wl,
+                       "verdict": "proved" if not bad else "refuted", "reason": ("%d corruptions served different data, e.g. %s" % (len(bad), json.dumps(bad[0])[:300])) if bad else "",
+                       "validated": rep["cases"], "wall_s": round(time.time() - t1, 1), "bound": "%d cases: %d errors, %d identical, %d panics" % (rep["cases"], rep["error"], rep["identical"], rep["panic"])}
+                if bad:
+                    rdir = os.path.join(VERIF, "replays", prop)
+                    os.makedirs(rdir, exist_ok=True)
+                    rp = os.path.join(rdir, "corruptsim.%s.json" % wl)
+                    json.dump(bad[:10], open(rp, "w"), indent=1)
+                    res["replay"] = rp
+                out.append(res)
+                log("[V.corrupt] %-10s workload %-5s %d cases %s" % (res["verdict"], wl, rep["cases"], res["reason"][:120]))
+    except Exception as e:
+        out.append({"ob": "native", "obligation": "native", "engine": "native replay", "query": "crashsim / corruptsim", "verdict": "inconclusive", "reason": "%s: %s" % (type(e).__name__, e)})
+        log("[native] inconclusive %s: %s" % (type(e).__name__, e))
+    return out
+
+
 def run(prop, obligations, tier, scratch, log):
+    results = _run(prop, obligations, tier, scratch, log)
+    refuted = any(r.get("verdict") == "refuted" for r in results)
+    results += native_validation(prop, tier, refuted, log)
+    return results
+
+
+def _run(prop, obligations, tier, scratch, log):
     results = []
     try:
         path, dig, dt = mir_dump(log)
